@@ -95,10 +95,9 @@ Eval(e, env) ==
                       ELSE IF Num(i) >= 0 /\ Num(i) < Len(x.items) THEN IV(x.items[Num(i) + 1]) ELSE Err("IndexError")
     [] e.k = "where" -> LET c == Eval(e.c, env) IN
                         IF c.t = "e" THEN c ELSE IF Truth(c) THEN Eval(e.x, env) ELSE Eval(e.y, env)
-    [] e.k = "and" -> LET x == Eval(e.x, env) IN IF x.t = "e" THEN x ELSE
-                      LET y == Eval(e.y, env) IN IF y.t = "e" THEN y ELSE IF Truth(x) THEN y ELSE x
-    [] e.k = "or" -> LET x == Eval(e.x, env) IN IF x.t = "e" THEN x ELSE
-                     LET y == Eval(e.y, env) IN IF y.t = "e" THEN y ELSE IF Truth(x) THEN x ELSE y
+    \* Python's `and` / `or`: the right operand is evaluated only when the left one does not decide
+    [] e.k = "and" -> LET x == Eval(e.x, env) IN IF x.t = "e" THEN x ELSE IF Truth(x) THEN Eval(e.y, env) ELSE x
+    [] e.k = "or" -> LET x == Eval(e.x, env) IN IF x.t = "e" THEN x ELSE IF Truth(x) THEN x ELSE Eval(e.y, env)
     [] e.k = "inl" -> LET x == Eval(e.x, env) y == Eval(e.y, env) IN
                       IF x.t = "e" THEN x ELSE IF y.t = "e" THEN y
                       ELSE IF y.t # "l" THEN Err("TypeError") ELSE BV(\E i \in 1..Len(y.items) : y.items[i] = Num(x))
